@@ -309,3 +309,19 @@ PROPS["C17"] = dict(
     max_parallel=10,
     min_evaluations={"quick": 1000, "thorough": 1500},
 )
+
+PROPS["C09"] = dict(
+    title="Dropping a send or recv future is safe at every await point",
+    rule="one operation's future is polled by hand and dropped at its n-th Pending (n = 1..4 quick, 1..10 thorough) while the event it waits "
+         "for races with it (peer starts sending / starts reading after 0/25(/3/80) ms): recv()/recv_multipart() on PULL/SUB/DEALER/ROUTER with a "
+         "peer sending single and 3-frame messages; send()/send_multipart() on PUSH/ROUTER/DEALER/PUB blocked at HWM 1 against a peer that "
+         "reads later; ROUTER frame-by-frame send with the last frame's send() dropped; REQ send/recv and REP recv with the peer acting later; a "
+         "fifth of the cases with SNDTIMEO/RCVTIMEO 40 ms (internal cancellation). Afterwards normal traffic continues and the C01/C02 oracle "
+         "over the whole frame stream checks nothing lost, duplicated or torn, the cancelled message is all-or-nothing, and the next valid calls "
+         "succeed. distinct = (socket, op, transport, n, delay, timeout); evidence lists the cancellation points reached.",
+    assumptions=["poll counts depend on scheduling; the set of cancellation points reached per (socket, op) is reported as measured",
+                 "DEALER egress loss/reorder is recorded under C01 and not re-judged here"],
+    shards=lambda tier, seed: sharded("c09", _n(tier, 14, 16), _n(tier, 600, 3000)),
+    max_parallel=14,
+    min_evaluations={"quick": 60, "thorough": 500},
+)
